@@ -363,3 +363,15 @@ Print Assumptions schema_prefix_free.
 Print Assumptions schema_injective.
 Print Assumptions range_iff_prefix.
 Print Assumptions decode_join.
+
+(* ---------------------------------------------------------------- order ids accepted by the message checks *)
+(* an order id the message checks accept gives a well-formed order key: with the schema theorems above, no accepted edit-order,
+   delete-order or certificate-results instruction can address a key that collides with, or falls into the range of, another *)
+Theorem accepted_order_id_wf chain id : u64 chain -> order_id_ok id = true -> skey_wf (KOrder chain id).
+Proof. intros Hc Ho. split; [exact Hc|]. unfold short. unfold order_id_ok in Ho. apply Nat.leb_le in Ho. lia. Qed.
+Theorem accepted_order_key_decodes chain id : u64 chain -> order_id_ok id = true ->
+  decode (encode_key (KOrder chain id)) = Some (segs_of (KOrder chain id)).
+Proof. intros Hc Ho. unfold encode_key. apply decode_join. apply segs_short. now apply accepted_order_id_wf. Qed.
+(* and a refused one is exactly one whose key framing would wrap (the repaired panic) *)
+Theorem refused_order_id_not_short id : order_id_ok id = false -> ~ short id.
+Proof. unfold order_id_ok, short. intros H. apply Nat.leb_gt in H. lia. Qed.
